@@ -153,13 +153,16 @@ def observables(dic):
     return obs
 
 
-def observe(dic):
-    """evaluate every observable; returns dict name -> tensor (detached clone) or
-    ('raises', text)"""
+def observe(dic, reverse=False):
+    """evaluate every observable (in name order, or reversed); returns dict name -> tensor
+    (detached clone) or ('raises', text)"""
     import torch
 
     out = {}
-    for name, f in observables(dic):
+    obs = observables(dic)
+    if reverse:
+        obs = obs[::-1]
+    for name, f in obs:
         try:
             v = f()
             if isinstance(v, (tuple, list)):
